@@ -1016,3 +1016,9 @@ mutant("c12-isscheduled-no-zero-ops", "C12", "R12.a", ISS,
        "    def update(self, scheduled_operation: ScheduledOperation):",
        "    def reset(self):\n        self.set_features_to_zero(exclude=FeatureType.OPERATIONS)\n\n    def update(self, scheduled_operation: ScheduledOperation):",
        "seeded C11-s3 shape: the scheduled flags survive a reset")
+
+mutant("c09-falsy-machine", "C09", "R09.e", DISP,
+       "        if machine_id is None:\n            machine_id = operation.machine_id", "        if not machine_id:\n            machine_id = operation.machine_id",
+       "machine 0 treated as 'not given'")
+mutant("c09-falsy-job-in-env", "C09", "R09.f", ENV1,
+       "        operation = self.dispatcher.next_operation(job_id)", "        operation = self.dispatcher.next_operation(job_id if job_id else 0)")
